@@ -137,6 +137,10 @@ func genDerive(r *KRng, client string) *WDerive {
 	if r.P(0.1) {
 		d.GreaseExact = true
 	}
+	if r.P(0.06) {
+		// an explicit initial_source_connection_id: the wire must carry it as written (and the server then refuses it)
+		d.ISCID = []string{"deadbeef01", "0102030405060708", "aa"}[r.N(3)]
+	}
 	if r.P(0.4) {
 		d.Shuffle = 1 + r.N(2)
 	}
@@ -382,6 +386,15 @@ func runDial(t *testing.T, ksc KScenario, res *KResult) {
 					}
 				}
 			}
+		}
+		if d := sc.Cfg.Derive; d != nil && d.ISCID != "" && (cp.err != nil || !cp.echoOK) {
+			// an explicit initial_source_connection_id that differs from the header's source ID: C02 does not claim the dial
+			// (the server must refuse it), C11 still wants it on the wire as written
+			res.Probe("explicit-iscid-dial-refused")
+			if cp.conn != nil && cp.conn.CH != nil {
+				checkClientHello(w, nodes, sc, di, cp, report, res)
+			}
+			continue
 		}
 		// ---- C02: the dial works (or the injected faults explain the failure)
 		if cp.err != nil || !cp.echoOK {
